@@ -618,7 +618,6 @@ class CIndLpBallProd(CIndLpBall):
     name = 'IndicatorLpUnitBall@prod'
     kinds = ('P', 'G')
     weight = 1
-    sigma_kinds = ('scalar', 'element')
 
     def params(self, draw, rsp):
         return {'p': draw(st.sampled_from([2.0, INF]))}
@@ -628,6 +627,7 @@ class CIndLinfBallEl(CIndLpBall):
     """IndicatorLpUnitBall(inf) with element-valued step (the factory behind
     it, proximal_convex_conj_l1, documents it)"""
     name = 'IndicatorLpUnitBall@el'
+    kinds = ('T', 'P', 'G')
     weight = 0.5
     sigma_kinds = ('element',)
 
@@ -890,8 +890,29 @@ BY_NAME = {e.name: e for e in ENTRIES}
 # sure the signature carries the region).  The authoritative list for the
 # runner is known_findings.d/C07.json; this predicate only steers generation.
 
+def matrix_wide(rsp):
+    """(base^m)^n with fewer rows than columns (n < m)."""
+    return (rsp.parts is not None and rsp.parts[0].parts is not None and
+            len(rsp.parts) < len(rsp.parts[0].parts))
+
+
+def space_label(rsp):
+    if rsp.parts is None:
+        return rsp.sd['kind']
+    if rsp.is_power and rsp.parts[0].parts is None:
+        return 'power'
+    if rsp.is_power and rsp.parts[0].is_power and \
+            rsp.parts[0].parts[0].parts is None:
+        return 'matrix-wide' if matrix_wide(rsp) else 'matrix'
+    return 'product'
+
+
+def region_of(rsp):
+    return 'sp={},{}'.format(space_label(rsp), rsp.region())
+
+
 def known_region(site, rsp):
-    leaf, prod = rsp.leaf_kind(), rsp.prod_kind()
+    leaf, prod = rsp.leaf_values(), rsp.prod_kind()
     if site in ('LpNorm(inf)', 'f_linf', 'IndicatorLpUnitBall(1)',
                 'f_cc_linf', 'f_proj_l1'):
         return leaf != 'unit'
@@ -902,8 +923,10 @@ def known_region(site, rsp):
         return prod in ('const', 'array')
     if site in ('NuclearNorm(1,inf)', 'IndicatorNuclearNormUnitBall(inf,1)'):
         return True
+    if site in ('NuclearNorm(1,2)', 'IndicatorNuclearNormUnitBall(inf,2)'):
+        return matrix_wide(rsp)
     if site in ('Huber', 'f_huber'):
-        return rsp.parts is not None
+        return rsp.parts is not None or rsp.has_array_weighting()
     return False
 
 
@@ -946,6 +969,8 @@ def build_ref(fd, rsp):
         return R.RTranslate(h, vec(fd['y'], n))
     if t == 'argscale':
         s = fd['s']
+        if not isinstance(s, dict) and float(s) == 0.0:
+            return R.RConst(rsp, h.value(np.zeros(n)))
         return R.RArgScale(h, vec(s, n) if isinstance(s, dict) else s)
     if t == 'leftscale':
         return R.RLeftScale(h, fd['s'])
@@ -984,7 +1009,36 @@ def site_of(fd):
         return BY_NAME[fd['name']].site(fd['params'])
     if t == 'sepsum':
         return 'sepsum(' + ','.join(site_of(p) for p in fd['parts']) + ')'
-    return '{}({})'.format(t, site_of(fd['f']))
+    return '{}({})'.format(rule_name(fd), site_of(fd['f']))
+
+
+def rule_name(fd):
+    name = fd['t']
+    if name == 'argscale':
+        if isinstance(fd['s'], dict):
+            return 'argscale_el'
+        if float(fd['s']) == 0.0:
+            return 'argscale_zero'
+    return name
+
+
+NO_CONJ = ('IndicatorSimplex', 'IndicatorSumConstraint')
+
+
+def conj_unavailable(fd):
+    """``convex_conj`` of the tree is documented as not implemented
+    (IndicatorSimplex / IndicatorSumConstraint raise NotImplementedError and
+    every explicit conjugate rule passes that on)."""
+    t = fd['t']
+    if t == 'leaf':
+        return fd['name'] in NO_CONJ
+    if t == 'sepsum':
+        return any(conj_unavailable(p) for p in fd['parts'])
+    if t == 'quadpert':
+        return fd['a'] == 0 and conj_unavailable(fd['f'])
+    if t == 'conj':
+        return False
+    return conj_unavailable(fd['f'])
 
 
 def leaf_sites(fd, rsp):
@@ -998,6 +1052,12 @@ def leaf_sites(fd, rsp):
             out.extend(leaf_sites(p, rs))
         return out
     return leaf_sites(fd['f'], rsp)
+
+
+def mode_of(fd):
+    while fd['t'] != 'leaf':
+        fd = fd['parts'][0] if fd['t'] == 'sepsum' else fd['f']
+    return BY_NAME[fd['name']].mode
 
 
 def expected_rejection(fd):
@@ -1014,6 +1074,9 @@ def expected_rejection(fd):
     inner = expected_rejection(fd['f'])
     if inner:
         return inner
+    if t == 'conj' and mode_of(fd) == 'functional' and \
+            conj_unavailable(fd['f']):
+        return 'nie'
     if t == 'leftscale' and fd['s'] < 0:
         return 'value'
     if t == 'quadpert' and fd['a'] < 0:
@@ -1021,7 +1084,7 @@ def expected_rejection(fd):
     return None
 
 
-def build_odl(fd, space, mode):
+def build_odl(fd, space, mode, rsp):
     """-> (factory, functional or None); raises what ODL raises."""
     t = fd['t']
     n = flat.rdim(space)
@@ -1032,8 +1095,9 @@ def build_odl(fd, space, mode):
         return e.odl(space, fd['params'], n)
     if mode == 'functional':
         if t == 'sepsum':
-            fs = [build_odl(p, sp, mode)[1]
-                  for p, sp in zip(fd['parts'], space.spaces)]
+            fs = [build_odl(p, sp, mode, rs)[1]
+                  for p, sp, rs in zip(fd['parts'], space.spaces,
+                                       rsp.parts)]
             if fd.get('power') and len(fs) >= 1:
                 f = S.SeparableSum(fs[0], len(fs))
             else:
@@ -1041,7 +1105,7 @@ def build_odl(fd, space, mode):
             if f.domain != space:
                 raise HarnessError('separable sum domain differs')
             return f.proximal, f
-        _, h = build_odl(fd['f'], space, mode)
+        _, h = build_odl(fd['f'], space, mode, rsp)
         if t == 'translated':
             f = h.translated(flat.unflat(vec(fd['y'], n), space))
         elif t == 'argscale':
@@ -1060,7 +1124,7 @@ def build_odl(fd, space, mode):
         elif t == 'conj':
             f = h.convex_conj
         elif t == 'bregman':
-            href = fd['_href']
+            href = build_ref(fd['f'], rsp)
             y = bregman_point(href, fd, n)
             sg = R.subgradient(href, y)
             pt = flat.unflat(y, space)
@@ -1073,10 +1137,10 @@ def build_odl(fd, space, mode):
         return f.proximal, f
     # factory mode: the calculus rules of proximal_operators.py
     if t == 'sepsum':
-        facs = [build_odl(p, sp, mode)[0]
-                for p, sp in zip(fd['parts'], space.spaces)]
+        facs = [build_odl(p, sp, mode, rs)[0]
+                for p, sp, rs in zip(fd['parts'], space.spaces, rsp.parts)]
         return PO.combine_proximals(*facs), None
-    fac, _ = build_odl(fd['f'], space, mode)
+    fac, _ = build_odl(fd['f'], space, mode, rsp)
     if t == 'translated':
         return PO.proximal_translation(
             fac, flat.unflat(vec(fd['y'], n), space)), None
@@ -1103,21 +1167,6 @@ def build_odl(fd, space, mode):
             mu = float(op['c']) ** 2
         return PO.proximal_composition(fac, L, mu), None
     raise HarnessError('node {} not available in factory mode'.format(t))
-
-
-def attach_refs(fd, rsp):
-    """Store the reference node of the child on bregman nodes (the ODL
-    builder needs the same point / sub-gradient as the reference)."""
-    t = fd['t']
-    if t == 'leaf':
-        return
-    if t == 'sepsum':
-        for p, rs in zip(fd['parts'], rsp.parts):
-            attach_refs(p, rs)
-        return
-    attach_refs(fd['f'], rsp)
-    if t == 'bregman':
-        fd['_href'] = build_ref(fd['f'], rsp)
 
 
 # --------------------------------------------------------------------------
